@@ -170,3 +170,21 @@ Fixpoint uripost_entries (items : list pitem) (h : headers) : list entry :=
       {| e_method := POST; e_url := u; e_body := b; e_tag := t; e_headers := h |} :: uripost_entries r h
   | PBlank :: r => uripost_entries r h
   end.
+
+(* ---------- well-formed uripost files (hypothesis of the round-trip theorem) ---------- *)
+Section UripostWf.
+  Variable url_parse : bytes -> option (bytes * bytes).
+
+  Definition wf_pitem (il : pitem * lay) : bool :=
+    let '(i, l) := il in
+    wf_lay l &&
+    match i with
+    | PBlank => true
+    | PHeader kl k kt vl v vt =>
+        lblank kl && lblank kt && lblank vl && lblank vt && wf_key k && wf_val v
+    | PReq u t b =>
+        negb (has SP u) && url_ok url_parse u
+        && tight (pitem_text i) && nolf (pitem_text i)
+        && Z.leb (Z.of_N (nlen b)) max_alloc
+    end.
+End UripostWf.
